@@ -115,7 +115,9 @@ func (e *env) shapes(full bool) []shape {
 		}
 	}
 	v := func(i int) string { return e.nameOf(K[i]) }
-	one := func(keys []*polyenv.Acct, m int, who ...string) sigEntry { return sigEntry{keys: keys, m: m, sigs: who} }
+	one := func(keys []*polyenv.Acct, m int, who ...string) sigEntry {
+		return sigEntry{keys: keys, m: m, sigs: who}
+	}
 	out = append(out,
 		shape{"two:K/M=1/3xV0 + U", []sigEntry{one(K, 1, v(0), v(0), v(0)), one([]*polyenv.Acct{e.accts["U"]}, 1, "U")}},
 		shape{"two:K/M=1/V0 + K/M=1/V1", []sigEntry{one(K, 1, v(0)), one(K, 1, v(1))}},
